@@ -152,9 +152,36 @@ def _extent(pts):
 def _rand_track(rng):
     n = rng.choice([2, 3, 3, 4, 5, 6, 7, 8, 9, 10, 11, 12, 12])
     style = rng.choice(["uniform", "uniform", "lattice", "lattice", "collinear", "dups", "revisit", "loop", "loop_lattice",
-                        "identical", "spike", "tiny", "large", "line_lattice", "loop_dups", "map_fine", "map_fine"])
+                        "identical", "spike", "tiny", "large", "line_lattice", "loop_dups", "map_fine", "map_fine",
+                        "int_lattice", "int_staircase"])
+    if rng.random() < 0.03:
+        style = "dense_long"
     U = lambda: round(rng.uniform(0, 10), 3)
-    if style == "uniform":
+    if style == "int_lattice":
+        # coordinates held as Python ints (typed without a decimal point, read from an integer grid)
+        pts = [[rng.randint(0, 16), rng.randint(0, 16)] for _ in range(n)]
+    elif style == "int_staircase":
+        step = rng.choice([1, 2, 4, 5])
+        x = y = 0
+        pts = [[0, 0]]
+        for i in range(n - 1):
+            if i % 2 == 0:
+                x += step
+            else:
+                y += step * rng.choice([1, 1, 2])
+            pts.append([x, y])
+    elif style == "dense_long":
+        # larger scale: a densely sampled log of 400+ fixes, spacing well below most of the tolerances tried
+        n = rng.choice([401, 450, 800, 1500])
+        x, y, th = 0.0, 0.0, rng.uniform(0, 2 * math.pi)
+        om = rng.uniform(0.02, 0.3)
+        pts = []
+        for i in range(n):
+            pts.append([round(x, 4), round(y, 4)])
+            th += rng.uniform(-0.3, 0.3) + 0.5 * math.sin(i * om)
+            x += 0.8 * math.cos(th)
+            y += 0.8 * math.sin(th)
+    elif style == "uniform":
         pts = [[U(), U()] for _ in range(n)]
     elif style == "lattice":
         pts = [[float(rng.randint(0, 4)), float(rng.randint(0, 4))] for _ in range(n)]
@@ -263,8 +290,12 @@ def _classes(pts, tol, mode, style):
         cls.append("n_ge_9")
     if any(T[i] == T[i + 1] for i in range(n - 1)):
         cls.append("consecutive_duplicate")
-    if any(T[i] == T[j] for i in range(n) for j in range(i + 2, n)):
+    if n <= 200 and any(T[i] == T[j] for i in range(n) for j in range(i + 2, n)):
         cls.append("revisited_position")
+    if n > 400:
+        cls.append("track_of_400+_observations")
+    if all(isinstance(c, int) for p in pts for c in p):
+        cls.append("coordinates_held_as_python_ints")
     if n >= 3 and T[0] == T[-1]:
         cls.append("closed_loop")
     if len(set(T)) == 1:
@@ -591,7 +622,8 @@ def classify(case, witness):
 
 # floors for the call-history workloads added in session 3 (a run in which they were silently skipped is inconclusive)
 _floors_base = floors
-_FLOORS_EXTRA = {'classes': {'history_portion': 5000, 'history_resimplified': 5000}}
+_FLOORS_EXTRA = {'classes': {'history_portion': 5000, 'history_resimplified': 5000,
+                             'coordinates_held_as_python_ints': 500, 'track_of_400+_observations': 60}}
 
 
 def floors(tier):
